@@ -461,12 +461,57 @@ fn gen_seq(rng: &mut Rng) -> Seq {
                     calls.push(Call::Op(if c == 'c' { Op::PopClip } else { Op::PopLayer }));
                 }
             }
+            8..=12 if crate::text::available() > 0 && rng.chance(0.08) => {
+                // text: the glyphs' device size and positions stay inside the domain (the glyph mask is as
+                // large as the box around all glyphs); only under invertible transforms
+                let t64 = T64::from(&t);
+                let scale = t64.max_scale();
+                // (FreeType refuses glyphs at sizes and distortions it cannot represent and draw_glyphs unwraps that
+                // error: text stays at 1 px and more under transforms whose two axes differ by less than 16 times)
+                let min_scale = t64.inverse().map(|i| 1. / i.max_scale()).unwrap_or(0.);
+                if t.inverse().is_some() && scale.is_finite() && scale < 1e3 && min_scale > 1e-3 && scale / min_scale < 16. {
+                    let dev_size = *rng.pick(&[1.0f64, 2., 4., 12., 40., 150., 300.]);
+                    let dev = vec![PathOp::MoveTo(Point::new(rng.range(-600., 600.) as f32, rng.range(-600., 600.) as f32))];
+                    if let Some(u) = to_user_space(&dev, &t, 0.) {
+                        let at = points_of(&u)[0];
+                        let alphabet: Vec<char> = "AgW.il#o@Q8 ".chars().collect();
+                        let text: String = (0..rng.int(0, 4)).map(|_| *rng.pick(&alphabet[..])).collect();
+                        // the point size itself goes to FreeType unscaled (it asserts on sizes it cannot set)
+                        let size = (dev_size / scale) as f32;
+                        if !(size >= 1. && size <= 1000. && size as f64 * min_scale >= 1.) {
+                            continue;
+                        }
+                        let spec = TextSpec { font: rng.below(3) as usize, size, text, x: at.x, y: at.y, glyphs: rng.chance(0.4) };
+                        let o = DrawOptions { blend_mode: random_mode(rng), alpha: gen_alpha(rng), antialias: if rng.chance(0.6) { AntialiasMode::Gray } else { AntialiasMode::None } };
+                        calls.push(Call::Op(Op::Text(spec, source_for(rng, w, h, &t), o)));
+                    }
+                }
+            }
             8..=12 => {
                 let dev = gen_path_dev(rng, w, h);
                 if let Some(u) = to_user_space(&dev, &t, 0.) {
                     let o = DrawOptions { blend_mode: random_mode(rng), alpha: gen_alpha(rng), antialias: if rng.chance(0.6) { AntialiasMode::Gray } else { AntialiasMode::None } };
                     calls.push(Call::Op(Op::Fill(Path { ops: u, winding: if rng.chance(0.5) { Winding::EvenOdd } else { Winding::NonZero } }, source_for(rng, w, h, &t), o)));
                 }
+            }
+            13..=17 if rng.chance(0.05) => {
+                // dashes as fine as the f32 resolution of the coordinates they are measured at: a short
+                // segment far from the origin (a dash boundary may round back onto the point it started from)
+                let far_x = rng.range(1000., 3900.) as f32 * if rng.chance(0.5) { -1. } else { 1. };
+                let far_y = rng.range(-3900., 3900.) as f32;
+                let horizontal = rng.chance(0.5);
+                let ulp = |v: f32| -> f32 { let a = v.abs().max(1e-30); f32::from_bits(a.to_bits() + 1) - a };
+                let d = ulp(far_x.abs().max(far_y.abs())) * *rng.pick(&[0.25f32, 0.5, 1.0, 2.0, 8.0]);
+                let len = d * rng.range(20., 3000.) as f32;
+                let (x1, y1) = if horizontal { (far_x + len, far_y) } else { (far_x, far_y + len) };
+                let ops = vec![PathOp::MoveTo(Point::new(far_x, far_y)), PathOp::LineTo(Point::new(x1, y1))];
+                let dash = if rng.chance(0.5) { vec![d] } else { vec![d, d * 2.] };
+                let st = StrokeStyle { width: rng.range(0.5, 4.) as f32, cap: *rng.pick(&[LineCap::Butt, LineCap::Round, LineCap::Square]), join: LineJoin::Bevel, miter_limit: 2., dash_array: dash, dash_offset: if rng.chance(0.5) { 0. } else { -d * 0.5 } };
+                let o = DrawOptions { blend_mode: BlendMode::SrcOver, alpha: 1., antialias: AntialiasMode::Gray };
+                // (drawn under the identity: the geometry is given in device space)
+                calls.push(Call::Op(Op::SetTransform(Transform::identity())));
+                calls.push(Call::Op(Op::Stroke(Path { ops, winding: Winding::NonZero }, SrcSpec::Solid(premul_pixel(rng)), st, o)));
+                calls.push(Call::Op(Op::SetTransform(t)));
             }
             13..=17 => {
                 let dev = gen_path_dev(rng, w, h);
@@ -667,7 +712,7 @@ fn seq_json(s: &Seq) -> J {
 
 fn mode_of_call(c: &Call) -> Option<BlendMode> {
     match c {
-        Call::Op(Op::Fill(_, _, o)) | Call::Op(Op::Stroke(_, _, _, o)) | Call::Op(Op::FillRect(_, _, _, _, _, o)) | Call::Op(Op::DrawImageAt(_, _, _, o)) | Call::Op(Op::DrawImageWithSizeAt(_, _, _, _, _, o)) => Some(o.blend_mode),
+        Call::Op(Op::Fill(_, _, o)) | Call::Op(Op::Text(_, _, o)) | Call::Op(Op::Stroke(_, _, _, o)) | Call::Op(Op::FillRect(_, _, _, _, _, o)) | Call::Op(Op::DrawImageAt(_, _, _, o)) | Call::Op(Op::DrawImageWithSizeAt(_, _, _, _, _, o)) => Some(o.blend_mode),
         Call::Extra(Extra::CopySurface(_, _, _, _, 1, m, _)) => Some(MODES[*m].0),
         _ => None,
     }
